@@ -1663,10 +1663,10 @@ impl<'a, 'src: 'a> Compiler<'a, 'src> {
 
     let catch_label = self.label_emitter.emit();
 
-    // We currently use zero as a placeholder as the peephole compiler
-    // determines the actual value
+    // a try is a statement so the only values live on the stack are this
+    // function's locals which include slot 0 and any parameters
     self.emit_byte(
-      SymbolicByteCode::PushHandler((0, catch_label)),
+      SymbolicByteCode::PushHandler((self.locals.len() as u16, catch_label)),
       try_.block.start(),
     );
 
